@@ -53,6 +53,7 @@ class G:
         self.n = 0
         self.defs = []
         self.labels = set()
+        self.auto = False       # initialisers for automatic objects: see avoid(auto-string-element-override)
 
     def uid(self, p):
         self.n += 1
@@ -89,6 +90,14 @@ class G:
                 members.append((mn, T("scalar", base, bf=w)))
                 text.append("%s %s:%d;" % (base, mn, w))
                 self.labels.add("bitfield")
+            elif d(st.integers(0, 5)) == 0:
+                # a text member: array of a character type, initialised by string literals of its width below
+                en = d(st.sampled_from(["char", "unsigned char", "unsigned short", "unsigned", "char"]))
+                mt = T("array", elem=T("scalar", en), n=d(st.sampled_from([2, 3, 4, 8, 16])))
+                mt.text = True
+                members.append((mn, mt))
+                text.append(mt.decl(mn) + ";")
+                self.labels.add("text-member")
             elif kind == "struct" and d(st.integers(0, 6)) == 0:
                 # anonymous struct or union member (C11 6.7.2.1p13): its members are members of the enclosing type
                 ak = d(st.sampled_from(["struct", "struct", "union"]))
@@ -200,6 +209,12 @@ class G:
     def array_init(self, t):
         d = self.draw
         e = t.elem
+        if getattr(t, "text", False) and t.n and d(st.integers(0, 3)):
+            pre = {"char": "", "unsigned char": "", "unsigned short": "u", "unsigned": "U"}[e.name]
+            ln = d(st.integers(0, t.n))
+            body = "".join(d(st.sampled_from(["a", "b", "Z", "0", "\\0", " ", "z"])) for _ in range(ln))
+            self.labels.add("string-init" if not pre else "wide-string-init")
+            return '%s"%s"' % (pre, body)
         if e.kind == "scalar" and e.name in ("char", "unsigned char", "signed char") and d(st.integers(0, 1)) == 0:
             self.labels.add("string-init")
             n = t.n
@@ -211,7 +226,8 @@ class G:
             # L"..." is left to C14: wchar_t is int on two targets and unsigned on aarch64
             pre = {"unsigned short": "u", "unsigned": "U"}[e.name]
             n = t.n
-            ln = d(st.integers(0, max(n - 1, 0))) if n else d(st.integers(0, 5))
+            # up to exactly n characters: the terminating null is dropped when there is no room for it (6.7.9p14)
+            ln = d(st.integers(0, n)) if n else d(st.integers(0, 5))
             s = "".join(d(st.sampled_from(["a", "b", "é", "€", "\\0", "z"])) for _ in range(ln))
             self.labels.add("wide-string-init")
             return '%s"%s"' % (pre, s)
@@ -275,6 +291,7 @@ class G:
         d = self.draw
         slots = [(mn, mt) for mn, mt in t.members if mn is not None or (mt is not None and mt.anon)]
         items = []
+        strslots = set()    # slots initialised by a string literal so far
         pos = 0
         hi = 0          # one past the highest slot initialised so far
         count = d(st.integers(0, len(slots) + 2))
@@ -320,6 +337,10 @@ class G:
                         pos = len(slots)   # the current object is now inside .mn: the next item must carry a designator
                         continue
                     items.append(".%s = %s" % (mn, self.elem_init(mt)))
+                elif mt.kind == "array" and mt.n and self.auto and pos in strslots:
+                    # avoid(auto-string-element-override): recorded finding (the pinned suite's golden output contains it)
+                    self.labels.add("avoided:auto-string-element-override")
+                    items.append(".%s = %s" % (mn, self.elem_init(mt)))
                 elif mt.kind == "array" and mt.n and d(st.integers(0, 1 if override else 2)) == 0:
                     i = d(st.integers(0, mt.n - 1))
                     items.append(".%s[%d] = %s" % (mn, i, self.elem_init(mt.elem)))
@@ -331,9 +352,23 @@ class G:
                     continue
                 else:
                     items.append(".%s = %s" % (mn, self.elem_init(mt)))
+                if items[-1].split("= ", 1)[-1].lstrip("uUL{ ").startswith('"'):
+                    strslots.add(pos)
             else:
                 mn, mt = slots[pos]
                 items.append(self.elem_init(mt))
+                if items[-1].lstrip("uUL{ ").startswith('"'):
+                    strslots.add(pos)
+                if mn is not None and mt.kind == "array" and mt.n and mt.elem.kind == "scalar" and items[-1].lstrip("uUL").startswith('"') and d(st.booleans()) \
+                        and not self.auto:
+                    # a string literal for an array member, then single elements of the same array overridden, also beyond
+                    # the end of the literal
+                    for _ in range(d(st.integers(1, 3))):
+                        items.append(".%s[%d] = %s" % (mn, d(st.integers(0, mt.n - 1)), self.value(mt.elem)))
+                    self.labels.add("string-then-element-override")
+                    hi = max(hi, pos + 1)
+                    pos = len(slots)
+                    continue
             pos += 1
             hi = max(hi, pos)
         if not items:
